@@ -43,7 +43,7 @@ Proof.
     destruct (m_process cfg (e_mech st) (f_payload f)) as [m'' [e|]]; [intros; inv_step; auto|].
     destruct (mech_is_error m''); intros; inv_step; auto; discriminate.
   - destruct (dec_buffer (c_maxsz cfg) b) as [| | |f k]; try discriminate; try (intros; inv_step; auto).
-    destruct (parse_cmd f); try (intros; inv_step; auto; fail).
+    destruct (parse_cmd f); try destruct (ready_incompatible _ _); try (intros; inv_step; auto; fail).
     intros H Herr; inv_step. exfalso. revert Herr. unfold has_err, cork_out.
     destruct (c_server cfg); destruct (_ && _); cbn; discriminate.
   - destruct (negb (e_v2_sent st)); try (intros; inv_step; discriminate).
@@ -55,7 +55,7 @@ Proof.
   - destruct (dec_buffer (c_maxsz cfg) b) as [| | |f k]; try discriminate; try (intros; inv_step; auto).
     destruct (f_cmd f).
     + destruct (e_version st) as [[|]|]; try (intros; inv_step; auto; fail);
-        destruct (parse_cmd f); intros; inv_step; auto; discriminate.
+        destruct (parse_cmd f); try destruct (ready_incompatible _ _); intros; inv_step; auto; discriminate.
     + destruct (MAX_FRAMES <=? length (e_partial st))%nat; [intros; inv_step; auto|].
       destruct (f_more f); intros; inv_step; discriminate.
 Qed.
